@@ -8,6 +8,7 @@ pub fn lookup(name: &str) -> Option<fn()> {
     #[cfg(nucleo_verif_shims)]
     let r = r
         .or_else(|| super::proto_h::lookup(name))
+        .or_else(|| super::scored_h::lookup(name))
         .or_else(|| super::proto_h::probes::lookup(name));
     r
 }
@@ -31,5 +32,26 @@ fn run() {
         Err(_) => println!("REPLAY-RESULT panic (a panic inside the code under test)"),
         Ok(()) if failed > 0 => println!("REPLAY-RESULT violated {failed}"),
         Ok(()) => println!("REPLAY-RESULT clean"),
+    }
+}
+
+/// The score table of scored_h.rs: the real `MultiPattern::score` of the current tree on every
+/// (pattern, text) pair. Printed here, turned into gen/score_table.rs by the driver.
+#[cfg(test)]
+#[test]
+fn score_table() {
+    use super::common::{PATS, TEXTS};
+    use crate::pattern::{CaseMatching, MultiPattern, Normalization};
+    let mut m = crate::Matcher::new(crate::Config::DEFAULT);
+    for (pid, pat) in PATS.iter().enumerate() {
+        let mut mp = MultiPattern::new(1);
+        if !pat.is_empty() {
+            mp.reparse(0, pat, CaseMatching::Respect, Normalization::Never, false);
+        }
+        for (tid, t) in TEXTS.iter().enumerate() {
+            let hay = [crate::Utf32String::from(*t)];
+            let r = mp.score(&hay, &mut m);
+            println!("SCORE-TABLE {pid} {tid} {}", r.map_or(-1i64, |x| x as i64));
+        }
     }
 }
